@@ -121,6 +121,7 @@ pub fn drive(name: &str, out: &str, args: &[String]) {
         "liq" => liq_driver(out, seed, arg(args, 1, 100)),
         "admin" => admin_driver(out, seed, arg(args, 1, 100)),
         "curve" => curve_driver(out, seed, arg(args, 1, 1000)),
+        "integ" => integ_driver(out, seed, arg(args, 1, 10000)),
         _ => {
             eprintln!("unknown driver {}", name);
             std::process::exit(2);
@@ -884,8 +885,9 @@ fn curve_driver(out: &str, seed: u64, n: u64) {
             3 if pts.len() >= 2 => { pts[0] = (0, 0); }
             _ => {}
         }
-        let mut p5: Vec<Value> = pts.iter().map(|(u, r)| json!([u, r])).collect();
-        while p5.len() < 5 { p5.push(json!([0, 0])); }
+        let bu = |v: u32| crate::num::big_u(v as u128);
+        let mut p5: Vec<Value> = pts.iter().map(|(u, r)| json!([bu(*u), bu(*r)])).collect();
+        while p5.len() < 5 { p5.push(json!([bu(0), bu(0)])); }
         let mut urs: Vec<I80F48> = vec![I80F48::ZERO, I80F48::from_bits(1), I80F48::ONE, I80F48::ONE + I80F48::from_bits(1), I80F48::from_num(2), I80F48::from_num(-1)];
         for (u, _) in pts.iter() {
             let x = I80F48::from_num(*u) / I80F48::from_num(u32::MAX);
@@ -906,12 +908,84 @@ fn curve_driver(out: &str, seed: u64, n: u64) {
             let opt = *pick(&mut rng, &["0.5", "0.8", "0.999", "0.0001", "0", "1"]);
             let pl = *pick(&mut rng, &["0.1", "0.0001", "3", "0"]);
             let mx = *pick(&mut rng, &["1", "0.2", "9.99", "0.05"]);
-            r.act(json!({"op":"curve","legacy":{"opt":opt,"plateau":pl,"max":mx},"fees":fees,"program_fees":rng.gen_bool(0.5),
+            let lb = |x: &str| crate::num::big_i(x.parse::<I80F48>().unwrap().to_bits());
+            r.act(json!({"op":"curve","legacy":{"opt":lb(opt),"plateau":lb(pl),"max":lb(mx)},"fees":fees,"program_fees":rng.gen_bool(0.5),
                          "urs": urs.iter().map(|u| fx(*u)).collect::<Vec<_>>()}));
         } else {
-            r.act(json!({"op":"curve","zero":zero,"hundred":hundred,"points":p5,"fees":fees,"program_fees":rng.gen_bool(0.5),
+            r.act(json!({"op":"curve","zero":bu(zero),"hundred":bu(hundred),"points":p5,"fees":fees,"program_fees":rng.gen_bool(0.5),
                          "urs": urs.iter().map(|u| fx(*u)).collect::<Vec<_>>()}));
         }
+    }
+    r.finish();
+}
+
+// ------------------------------------------------------------------------------------------------
+// integ driver (C20): random 64/128-bit operand tuples biased to overflow cliffs, neighbour pairs
+// ------------------------------------------------------------------------------------------------
+fn integ_driver(out: &str, seed: u64, n: u64) {
+    let mut rng = StdRng::seed_from_u64(seed);
+    let mut r = Recorder::new(&format!("{}/integ.trace", out), vec![]);
+    r.begin(&[]);
+    let b = |v: i128| crate::num::big_i(v);
+    let ru64 = |rng: &mut StdRng| -> u64 {
+        match rng.gen_range(0..8) {
+            0 => rng.gen_range(0..4),
+            1 => u64::MAX - rng.gen_range(0..4),
+            2 => (1u64 << rng.gen_range(1..64)).wrapping_add(rng.gen_range(0..3)).wrapping_sub(1),
+            3 => 10u64.pow(rng.gen_range(0..20)),
+            _ => rng.gen::<u64>() >> rng.gen_range(0..64),
+        }
+    };
+    let rfx = |rng: &mut StdRng| -> i128 {
+        match rng.gen_range(0..6) {
+            0 => rng.gen_range(0..3),
+            1 => i128::MAX - rng.gen_range(0..3),
+            2 => (rng.gen::<u64>() as i128) << rng.gen_range(0..60),
+            _ => ((rng.gen::<u64>() >> rng.gen_range(0..64)) as i128) << rng.gen_range(0..48),
+        }
+    };
+    for _ in 0..n {
+        let k = rng.gen_range(0..14);
+        let a = match k {
+            0 | 1 | 2 => {
+                let f = *pick(&mut rng, &["ty.c2l", "ty.l2c", "ty.roundtrip"]);
+                json!({"op":"integ","fn":f,"args":[b(ru64(&mut rng) as i128), b(rfx(&mut rng)), b(rfx(&mut rng))]})
+            }
+            3 | 4 => {
+                let f = *pick(&mut rng, &["ty.adj_i64", "ty.adj_i128", "ty.adj_u64"]);
+                let raw = (ru64(&mut rng) >> 1) as i128;
+                let ratio = rfx(&mut rng) >> 20;
+                let raw2 = raw.saturating_add(rng.gen_range(0..3));
+                let ratio2 = ratio.saturating_add(rng.gen_range(0..3));
+                json!({"op":"integ","fn":f,"args":[b(raw), b(ratio)],"args2":[b(raw2), b(ratio2)]})
+            }
+            5 | 6 | 7 => {
+                let f = *pick(&mut rng, &["kamino.c2l", "kamino.l2c", "kamino.roundtrip", "solend.c2l", "solend.l2c", "solend.roundtrip"]);
+                // realistic reserves: at least one whole token of supply, rate between 0.5 and 4
+                let dec = *pick(&mut rng, &[0i128, 6, 9]);
+                let supply = (10u64.pow(dec as u32)).saturating_mul(rng.gen_range(1..1_000_000_000)) as i128;
+                let avail = (supply as f64 * *pick(&mut rng, &[0.5f64, 1.0, 1.000001, 1.37, 4.0])) as i128;
+                json!({"op":"integ","fn":f,"args":[b((ru64(&mut rng) >> 8) as i128), b(avail.min(u64::MAX as i128)), b(supply), b(dec)]})
+            }
+            8 | 9 | 10 => {
+                let f = *pick(&mut rng, &["drift.inc", "drift.dec", "drift.wd", "drift.roundtrip"]);
+                let cum: i128 = match rng.gen_range(0..4) { 0 => 10_000_000_000, 1 => 0, 2 => rng.gen_range(10_000_000_000..40_000_000_000), _ => rfx(&mut rng) };
+                json!({"op":"integ","fn":f,"args":[b(ru64(&mut rng) as i128), b(cum), b(*pick(&mut rng, &[0i128, 6, 8, 9, 19, 20]))]})
+            }
+            11 => {
+                let f = *pick(&mut rng, &["drift.adj_i64", "drift.adj_i128", "drift.adj_u64"]);
+                let raw = (ru64(&mut rng) >> 1) as i128;
+                let cum = rng.gen_range(10_000_000_000i128..90_000_000_000);
+                json!({"op":"integ","fn":f,"args":[b(raw), b(cum)],"args2":[b(raw + 1), b(cum + rng.gen_range(0..5))]})
+            }
+            12 => {
+                let f = *pick(&mut rng, &["kamino.stale", "solend.stale", "drift.stale"]);
+                let s = rng.gen_range(0..1000i128);
+                json!({"op":"integ","fn":f,"args":[b(s), b(s + rng.gen_range(-1..2))]})
+            }
+            _ => json!({"op":"integ","fn":"ty.adj_sup_i64","args":[b((ru64(&mut rng) >> 2) as i128), b(rfx(&mut rng) >> 10), b(rfx(&mut rng) >> 10)]}),
+        };
+        r.act(a);
     }
     r.finish();
 }
